@@ -1330,7 +1330,14 @@ impl Primitives for InvocationCtx<'_> {
     }
 
     fn hash_64(&self, hasher: SupportedHashes, data: &[u8]) -> ([u8; 64], usize) {
-        self.v.primitives().hash_64(hasher, data)
+        // not FakePrimitives::hash_64: that test double returns the multihash *code* (0x1b = 27 for
+        // Keccak-256) as the digest length, which truncates every EVM KECCAK256 to 27 bytes
+        use multihash_codetable::MultihashDigest;
+        let mh = Code::try_from(hasher as u64).unwrap().digest(data);
+        let d = mh.digest();
+        let mut buf = [0u8; 64];
+        buf[..d.len()].copy_from_slice(d);
+        (buf, d.len())
     }
 
     fn recover_secp_public_key(
